@@ -144,8 +144,8 @@ class CellAlgebra(Ob):
                                 w.eq(coef_at(w, ca, a, s, cn, Q), coef_at(w, cb, a, s, cn, Q))))
                 # ... and the ghost values are consistent with them
                 if not label.startswith('var **') and not label.startswith('scalar **'):
-                    res += [(lab.replace('res:', 'res[%s]:' % label), c) for lab, c in inv_claims(w, r, P, part, 'res', force=True)
-                            if 'ghost' in lab]
+                    # ... and so is the cached boundary term the result carries (what a later solvePDE would use)
+                    res += [(lab.replace('res:', 'res[%s]:' % label), c) for lab, c in inv_claims(w, r, P, part, 'res', force=True)]
         return res
 
 
